@@ -1,7 +1,7 @@
 (* Conc/ProofsData.v — the data invariant of KvsConc: where the entries of committed and in-flight
    batches are, how the memtable generations and the tree are ordered, and its preservation. *)
 From Coq Require Import NArith List Bool Arith PArith FMapPositive Lia Permutation.
-From Blue Require Import Lsm.Model Lsm.KeyOrder Lsm.LoadProofs Lsm.Ordered Lsm.SortLemmas Lsm.CompactProofs Lsm.History.
+From Blue Require Import Lsm.Model Lsm.KeyOrder Lsm.LoadProofs Lsm.Ordered Lsm.SortLemmas Lsm.CompactProofs Lsm.WfProofs Lsm.History.
 From Blue Require Import Conc.KvsConc Conc.Spec Conc.ProofsBase Conc.ProofsSkel.
 Import ListNotations.
 Open Scope N_scope.
@@ -706,27 +706,26 @@ Qed.
 
 (* ------------------------------------------------------------------ LCompact *)
 Lemma data_compact st d c outs :
-  Skel st -> Data st d -> acceptedb (mkS [] (k_tree st) 0) (OCompact c outs) = true ->
+  Skel st -> Data st d -> valid_compactionb (k_tree st) c = true -> outputs_okb (k_tree st) c outs = true ->
   Data (with_tree st (apply_compaction (k_tree st) c outs)) d.
 Proof.
-  intros Hsk Hd Hacc. set (st' := with_tree _ _).
+  intros Hsk Hd Hv Ho. set (st' := with_tree _ _).
   pose proof (data_tree_inv st d Hsk Hd) as I.
-  assert (Hacc' : acceptedb (mkS [] (k_tree st) (k_seq st)) (OCompact c outs) = true) by exact Hacc.
-  pose proof (compact_inv _ c outs I Hacc') as I2.
-  assert (Hk : forall k, kview (compact (mkS [] (k_tree st) (k_seq st)) c outs) k = kview (mkS [] (k_tree st) (k_seq st)) k).
-  { intros k. cbn [acceptedb] in Hacc'. apply andb_prop in Hacc'. destruct Hacc' as [Ha _].
-    apply andb_prop in Ha. destruct Ha as [Hv Ho].
-    apply (compaction_preserves_kview _ c outs (inv_wf _ I) (inv_ord _ I) Hv Ho). }
+  set (s := mkS [] (k_tree st) (k_seq st)) in *.
+  assert (Hk : forall k, kview (compact s c outs) k = kview s k)
+    by (intros k; apply (compaction_preserves_kview s c outs (inv_wf _ I) (inv_ord _ I) Hv Ho)).
+  assert (Hwf : wf_version (apply_compaction (k_tree st) c outs))
+    by (apply (compaction_wf s c outs (inv_wf _ I) (inv_ord _ I) Hv Ho)).
   assert (Hin : forall e, In e (file_entries (k_tree st')) <-> In e (file_entries (k_tree st))).
-  { intros e. apply (files_view_eq (mkS [] (k_tree st) (k_seq st)) (compact (mkS [] (k_tree st) (k_seq st)) c outs) eq_refl Hk). }
+  { intros e. apply (files_view_eq s (compact s c outs) eq_refl Hk). }
   constructor; try (unfold st'; st_simpl; fold st'; apply Hd).
-  - intros s b kv Hi Hkv. destruct (d_present st d Hd s b kv Hi Hkv) as [H|[H|H]]; [now left|right; now left|].
+  - intros s0 b kv Hi Hkv. destruct (d_present st d Hd s0 b kv Hi Hkv) as [H|[H|H]]; [now left|right; now left|].
     right. right. now apply Hin.
   - intros e He. apply Hin in He. now apply (d_tree_db st d Hd).
   - intros e He. apply Hin in He. apply (d_tree_hi st d Hd e He).
   - intros trig g e H1 H2 H3. apply Hin. eapply (d_installed st d Hd); eauto.
-  - exact (inv_wf _ I2).
-  - intros k. exact (inv_ord _ I2 k).
+  - exact Hwf.
+  - intros k. pose proof (inv_ord _ I k) as H. rewrite <- (Hk k) in H. exact H.
   - unfold st'. st_simpl. apply apply_compaction_nonempty, (d_tree_ne st d Hd).
 Qed.
 
